@@ -23,6 +23,8 @@ THEOREMS = [
     "c11_builder_flat",
     # nested loop = spec
     "nl_eq_spec_inner", "nl_eq_spec_left_outer", "nl_eq_spec_semi", "nl_eq_spec_anti",
+    "nlJoinG_eq_nlJoin", "nlMatchedR_spec", "nlUnmatchedR_spec", "nl_eq_spec_right_outer", "nl_eq_spec_full_outer", "nl_eq_spec",
+    "hash_eq_nl_right_outer", "hash_eq_nl_full_outer", "chunking_irrelevant_nljoinG",
     # chunk boundaries
     "chunking_irrelevant_nljoin", "chunking_irrelevant_hashjoin", "chunking_irrelevant_mergejoin",
     "chunking_irrelevant_order", "chunking_irrelevant_topn", "chunking_irrelevant_hashagg",
